@@ -24,6 +24,10 @@ var twkbFrames = []struct{ s, o float64 }{
 type twkbSupplier struct {
 	frame int
 	cell  universe.CellSupplier
+	// distinctClose: the closing vertex of every ring repeats the first vertex's XY but carries
+	// its own Z/M (legal: rings are closed in XY). TWKB stores rings open unless TWKBCloseRings is
+	// given, so without that option the closing Z/M cannot survive; with it, it must.
+	distinctClose bool
 }
 
 func (t *twkbSupplier) Prim(idx int, kind byte, ring int, n int) []geom.Coordinates {
@@ -36,22 +40,27 @@ func (t *twkbSupplier) Prim(idx int, kind byte, ring int, n int) []geom.Coordina
 		cs[i].M = (cs[i].M-2000)*f.s - f.o
 	}
 	if kind == 'R' {
+		last := cs[len(cs)-1]
 		cs[len(cs)-1] = cs[0]
+		if t.distinctClose {
+			cs[len(cs)-1].Z, cs[len(cs)-1].M = last.Z+77*f.s, last.M-33*f.s
+		}
 	}
 	return cs
 }
 
 type twkbCase struct {
-	D, W, Idx    int
-	Shape        string
-	CT           int
-	Frame        int
-	PrecXY       int
-	PrecZ, PrecM int
-	Size, BBox   bool
-	Close        bool
-	IDs          []int64
-	Hex          string `json:"hex,omitempty"`
+	D, W, Idx     int
+	Shape         string
+	CT            int
+	Frame         int
+	PrecXY        int
+	PrecZ, PrecM  int
+	Size, BBox    bool
+	Close         bool
+	IDs           []int64
+	DistinctClose bool
+	Hex           string `json:"hex,omitempty"`
 }
 
 var roundingCollapsed atomic.Int64
@@ -145,7 +154,7 @@ func hasEmptyPointInMultiPoint(n refcodec.Node) bool {
 }
 
 // compareRounded walks expected (original) and decoded nodes.
-func compareRounded(a, b refcodec.Node, pxy, pz, pm int, path string) string {
+func compareRounded(a, b refcodec.Node, pxy, pz, pm int, path string, openRings, isRing bool) string {
 	if a.T != b.T {
 		return fmt.Sprintf("%s: type %v vs %v", path, a.T, b.T)
 	}
@@ -168,6 +177,9 @@ func compareRounded(a, b refcodec.Node, pxy, pz, pm int, path string) string {
 					p = pz
 				}
 			}
+			if openRings && isRing && j >= 2 && i == len(a.Coords)-1 && roundedOK(a.Coords[0][j], b.Coords[i][j], p) {
+				continue // ring stored open: the closing vertex comes back as a copy of the first
+			}
 			if !roundedOK(a.Coords[i][j], b.Coords[i][j], p) {
 				return fmt.Sprintf("%s: point %d ordinate %d: %v decoded as %v at %d places", path, i, j, a.Coords[i][j], b.Coords[i][j], p)
 			}
@@ -177,7 +189,7 @@ func compareRounded(a, b refcodec.Node, pxy, pz, pm int, path string) string {
 		return fmt.Sprintf("%s: %d members decoded as %d", path, len(a.Kids), len(b.Kids))
 	}
 	for i := range a.Kids {
-		if d := compareRounded(a.Kids[i], b.Kids[i], pxy, pz, pm, fmt.Sprintf("%s/%d", path, i)); d != "" {
+		if d := compareRounded(a.Kids[i], b.Kids[i], pxy, pz, pm, fmt.Sprintf("%s/%d", path, i), openRings, a.T == geom.TypePolygon); d != "" {
 			return d
 		}
 	}
@@ -309,7 +321,7 @@ func c07One(r *engine.Run, g geom.Geometry, c twkbCase) {
 		if got.T != want.T || !got.Empty {
 			bad("roundtrip.emptyGeometry", got.String())
 		}
-	} else if d := compareRounded(want, got, c.PrecXY, c.PrecZ, c.PrecM, "root"); d != "" {
+	} else if d := compareRounded(want, got, c.PrecXY, c.PrecZ, c.PrecM, "root", !c.Close, false); d != "" {
 		k := "roundtrip"
 		if emptyPt {
 			k = "roundtrip.emptyPointInMultiPoint"
@@ -423,45 +435,50 @@ func c07Main(r *engine.Run) {
 		s := shapes[i]
 		for _, ct := range allCT {
 			for _, fr := range frames {
-				g := universe.Build(s, ct, &twkbSupplier{frame: fr})
-				if g.Validate() != nil {
-					continue
-				}
-				nm, multi := numMembers(g)
-				idsets := [][]int64{nil}
-				if multi {
-					ids := make([]int64, nm)
-					for k := range ids {
-						ids[k] = int64(k*k*1000003-7) * int64(1-2*(k%2))
-					}
-					idsets = append(idsets, ids, append(append([]int64{}, ids...), 99))
-					if nm > 0 {
-						idsets = append(idsets, ids[:nm-1])
-					}
-				} else {
-					idsets = append(idsets, []int64{5})
-				}
-				for _, pxy := range precXY {
-					// keep |x·10^p| below 2^50 (int64 deltas and exact float products are outside the domain beyond)
-					if math.Abs(twkbFrames[fr].s*64+math.Abs(twkbFrames[fr].o))*math.Pow10(pxy) > 1<<50 {
+				for _, dc := range []bool{false, true} {
+					if dc && (!ct.Is3D() && !ct.IsMeasured() || fr > 1) {
 						continue
 					}
-					for pi, pzm := range precZM {
-						if math.Abs(twkbFrames[fr].s*64+math.Abs(twkbFrames[fr].o))*math.Pow10(maxInt(pzm[0], pzm[1])) > 1<<50 {
+					g := universe.Build(s, ct, &twkbSupplier{frame: fr, distinctClose: dc})
+					if g.Validate() != nil {
+						continue
+					}
+					nm, multi := numMembers(g)
+					idsets := [][]int64{nil}
+					if multi {
+						ids := make([]int64, nm)
+						for k := range ids {
+							ids[k] = int64(k*k*1000003-7) * int64(1-2*(k%2))
+						}
+						idsets = append(idsets, ids, append(append([]int64{}, ids...), 99))
+						if nm > 0 {
+							idsets = append(idsets, ids[:nm-1])
+						}
+					} else {
+						idsets = append(idsets, []int64{5})
+					}
+					for _, pxy := range precXY {
+						// keep |x·10^p| below 2^50 (int64 deltas and exact float products are outside the domain beyond)
+						if math.Abs(twkbFrames[fr].s*64+math.Abs(twkbFrames[fr].o))*math.Pow10(pxy) > 1<<50 {
 							continue
 						}
-						for mask := 0; mask < 8; mask++ {
-							if pi >= 2 && mask != 0 && mask != 7 {
-								continue // further Z/M precision pairs × {no options, all options}
+						for pi, pzm := range precZM {
+							if math.Abs(twkbFrames[fr].s*64+math.Abs(twkbFrames[fr].o))*math.Pow10(maxInt(pzm[0], pzm[1])) > 1<<50 {
+								continue
 							}
-							for ii, ids := range idsets {
-								if ii > 0 && mask != 0 && mask != 7 {
-									continue // ID lists × {no options, all options}
+							for mask := 0; mask < 8; mask++ {
+								if pi >= 2 && mask != 0 && mask != 7 {
+									continue // further Z/M precision pairs × {no options, all options}
 								}
-								c := twkbCase{D: d, W: w, Idx: i, Shape: s.String(), CT: int(ct), Frame: fr, PrecXY: pxy, PrecZ: pzm[0], PrecM: pzm[1],
-									Size: mask&1 != 0, BBox: mask&2 != 0, Close: mask&4 != 0, IDs: ids}
-								if p := engine.SafeCall(func() { c07One(r, g, c) }); p != nil {
-									r.Violation("C07/panic", "twkb", c, fmt.Sprint(p))
+								for ii, ids := range idsets {
+									if ii > 0 && mask != 0 && mask != 7 {
+										continue // ID lists × {no options, all options}
+									}
+									c := twkbCase{D: d, W: w, Idx: i, Shape: s.String(), CT: int(ct), Frame: fr, PrecXY: pxy, PrecZ: pzm[0], PrecM: pzm[1],
+										Size: mask&1 != 0, BBox: mask&2 != 0, Close: mask&4 != 0, IDs: ids, DistinctClose: dc}
+									if p := engine.SafeCall(func() { c07One(r, g, c) }); p != nil {
+										r.Violation("C07/panic", "twkb", c, fmt.Sprint(p))
+									}
 								}
 							}
 						}
@@ -495,7 +512,7 @@ func c07Replay(r *engine.Run, sub string, raw json.RawMessage) error {
 		return err
 	}
 	shapes := universe.Shapes(c.D, c.W)
-	g := universe.Build(shapes[c.Idx], geom.CoordinatesType(c.CT), &twkbSupplier{frame: c.Frame})
+	g := universe.Build(shapes[c.Idx], geom.CoordinatesType(c.CT), &twkbSupplier{frame: c.Frame, distinctClose: c.DistinctClose})
 	c.Hex = ""
 	c07One(r, g, c)
 	return nil
